@@ -35,7 +35,7 @@ pub struct Plan {
 }
 
 pub const KINDS: &[&str] = &[
-    "tx", "tx", "tx", "tx-2in", "tx-conflict", "tx-conflict-2nd-input", "tx-dup", "stage", "bundle", "bundle", "peer-confirm", "peer-partial", "peer-conflict", "peer-invalid", "peer-plain", "reorg",
+    "tx", "tx", "tx", "tx-2in", "tx-conflict", "tx-conflict-2nd-input", "tx-dup", "stage", "bundle", "bundle", "peer-confirm", "peer-partial", "peer-conflict", "peer-side-conflict", "peer-invalid", "peer-plain", "reorg",
 ];
 
 fn gen(seed: u64, tier: Tier) -> Plan {
@@ -59,7 +59,7 @@ impl Scenario for C14 {
     fn meta(&self) -> Meta {
         Meta {
             level: "exploration",
-            rule: "run = one real node (consensus processor, timer-driven bundling, real mempool) preloaded with 2-5 blocks; 4..40/120 operations from {valid payment (half of them routed to the node with a fee, so that they carry routing work), two-input payment, conflicting spend of a pooled input, two-input transaction whose second input conflicts with a pooled one, duplicate, staging tick (moves received transactions into the pool without a block), bundling tick, peer block confirming a pooled transaction, peer block spending one of the two inputs of a pooled transaction, peer block conflicting with a pooled transaction, invalid peer block, plain peer block, two-block peer fork that reorganises away the last block}. After every operation: no two pooled transactions share a value-carrying input; every pooled transaction validates against the current ledger; reserved inputs (utxo_map) are a subset of the pooled transactions' inputs; cached routing work equals the sum over pooled transactions; a bundling tick either produced a block that the node adopted and whose transactions left the pool, or left the pool unchanged; and a fresh valid payment from an unspent output that no pooled transaction spends enters the pool (tried on a scratch basis: the probe transaction is removed again). distinct_nontrivial = distinct op-sequence digests with >= 1 pool/ledger conflict event.",
+            rule: "run = one real node (consensus processor, timer-driven bundling, real mempool) preloaded with 2-5 blocks; 4..40/120 operations from {valid payment (half of them routed to the node with a fee, so that they carry routing work), two-input payment, conflicting spend of a pooled input, two-input transaction whose second input conflicts with a pooled one, duplicate, staging tick (moves received transactions into the pool without a block), bundling tick, peer block confirming a pooled transaction, peer block spending one of the two inputs of a pooled transaction, peer block conflicting with a pooled transaction, sibling of the tip (never the longest chain) spending a reserved input, invalid peer block, plain peer block, two-block peer fork that reorganises away the last block}. After every operation: no two pooled transactions share a value-carrying input; every pooled transaction validates against the current ledger; reserved inputs (utxo_map) are exactly the pooled transactions' value-carrying inputs; cached routing work equals the sum over pooled transactions; a bundling tick either produced a block that the node adopted and whose transactions left the pool, or left the pool unchanged; and a fresh valid payment from an unspent output that no pooled transaction spends enters the pool (tried on a scratch basis: the probe transaction is removed again). distinct_nontrivial = distinct op-sequence digests with >= 1 pool/ledger conflict event.",
             real: &["Mempool::add_transaction_if_validates/add_transaction/bundle_block/can_bundle_block/delete_transactions", "ConsensusThread::process_event/process_timer_event/bundle_block", "Blockchain::add_blocks_from_mempool/remove_block_transactions/add_block_failure", "Block::create"],
             stubs: &["no network (blocks and transactions are injected at the consensus processor's channel)", "SimClock", "universe builder for peer blocks"],
             assumptions: &["event-granularity scheduling", "the active probe removes its transaction (and reservation) again"],
@@ -243,7 +243,7 @@ impl Scenario for C14 {
                     // a block by another creator (key index 4) on the node's tip (or replacing it)
                     let other_creator = w.params.n_users + 2;
                     let mut r2 = Rng::new(mix(plan.seed, 1000 + oi as u64));
-                    let parent = if k == "reorg" && w.recs[tip_idx].parent != [0; 32] { *w.by_hash.get(&w.recs[tip_idx].parent).unwrap() } else { tip_idx };
+                    let parent = if (k == "reorg" || k == "peer-side-conflict") && w.recs[tip_idx].parent != [0; 32] { *w.by_hash.get(&w.recs[tip_idx].parent).unwrap() } else { tip_idx };
                     let pledger = w.ledger_at(parent);
                     let ts = w.recs[parent].ts.max(sim.now().saturating_sub(1000)) + 2300;
                     let mut txs: Vec<Transaction> = vec![];
@@ -261,6 +261,19 @@ impl Scenario for C14 {
                                     tagc += 1;
                                     txs.push(make_tx(&owner, &[s.clone()], &[(owner.pk, s.amount)], ts + tagc, &tagc.to_le_bytes()));
                                     conflicts += 1;
+                                }
+                            }
+                        }
+                        "peer-side-conflict" => {
+                            // a sibling of the tip (stored, never the longest chain) that spends an input a pooled
+                            // transaction has reserved: the ledger does not change, the pool must not either
+                            if let Some(t) = pooled_with_value.iter().find(|t| t.from.iter().any(|s| s.amount > 0 && pledger.utxo.contains_key(&SlipRef::from_slip(s).key()))) {
+                                let s = SlipRef::from_slip(t.from.iter().find(|s| s.amount > 0 && pledger.utxo.contains_key(&SlipRef::from_slip(s).key())).unwrap());
+                                if let Some(owner) = w.keys.iter().find(|k| k.pk == s.pk).cloned() {
+                                    tagc += 1;
+                                    txs.push(make_tx(&owner, &[s.clone()], &[(owner.pk, s.amount)], ts + tagc, &tagc.to_le_bytes()));
+                                    conflicts += 1;
+                                    r.fault("side_block_spending_a_reserved_input", 1);
                                 }
                             }
                         }
@@ -364,6 +377,20 @@ impl Scenario for C14 {
                     r.violate(
                         format!("C14|pool|stale-reservation-after|{}", op.k),
                         format!("op {} ({}): an input is still reserved in the pool although no pooled transaction spends it", oi, op.k),
+                    );
+                    break;
+                }
+            }
+            // (3b) and the other way round: every value-carrying input of a pooled transaction is reserved
+            // (an unreserved one lets a second spender into the pool)
+            for t in &pool {
+                if t.transaction_type != TransactionType::Normal {
+                    continue;
+                }
+                if let Some(sl) = t.from.iter().find(|s| s.amount > 0 && !mp.utxo_map.contains_key(&s.utxoset_key)) {
+                    r.violate(
+                        format!("C14|pool|reservation-missing-after|{}", op.k),
+                        format!("op {} ({}): a pooled transaction's input (block {}, amount {}) is not reserved in the pool any more", oi, op.k, sl.block_id, sl.amount),
                     );
                     break;
                 }
